@@ -68,6 +68,16 @@ def gen_route(rng, shared=False):
             ops.append(f"pub {t} {1 if rng.random() < 0.15 else 0}")
     for _ in range(rng.randint(1, 4)):
         ops.append(f"pub {rng.choice(TOPICS)} {1 if rng.random() < 0.1 else 0}")
+    if len(peers) >= 2 and rng.random() < 0.5:
+        # bring the peers' outgoing queues to different positions, broadcast a retained message, continue
+        p1 = rng.choice(peers)
+        t = rng.choice(["a", "b", "a/b"])
+        ops.append(f"fsub {p1} - {t}")
+        for _ in range(rng.randint(1, 3)):
+            ops.append(f"pub {t} 0")
+        ops.append(f"pub {rng.choice(TOPICS)} 1")
+        ops.append(f"pub {t} 0")
+        ops.append(f"pub {rng.choice(TOPICS)} 1")
     if rng.random() < 0.15:
         # a Message event received from a peer, through the real EventStream loop into the Publisher of a real server value
         # (sender = a peer without entries in the tree: its Hello is a clean start, which clears the sender's entries)
@@ -90,7 +100,7 @@ def mqtt_match(flt, topic):
             return False
     return len(fl) == len(tl)
 
-OUT = re.compile(r"targets=\[(.*?)\] drop=([01]) nso=([01]) cnt=\[(.*?)\]$")
+OUT = re.compile(r"targets=\[(.*?)\] drop=([01]) nso=([01]) cnt=\[(.*?)\] qs=\[(.*?)\]$")
 
 def split_topic(t):
     if t.startswith("$share/"):
@@ -106,15 +116,16 @@ def pred_route(ops, out, check_groups=False):
     if len(out) != len(ops) or (out and out[0].startswith("CRASH")):
         return "implementation crashed or hung: " + (out[0] if out else "")
     peers, fed, loc = [], set(), set()
+    queued = {}           # peer -> topics of the messages put into its queue, in order
     for op, o in zip(ops, out):
         if o in ("panic", "bad-op", "err", "wrong-event", "odd-options", "hang") or o.startswith("err-"):
             return f"`{op}` -> {o}"
         f = op.split()
         if f[0] == "new":
-            peers, fed, loc = [], set(), set()
+            peers, fed, loc, queued = [], set(), set(), {}
         elif f[0] == "peer":
             if f[1] != "A" and f[1] not in peers:
-                peers.append(f[1])
+                peers.append(f[1]); queued[f[1]] = []
         elif f[0] == "fsub":
             fed.add((f[1], f[2], f[3]))
         elif f[0] == "funsub":
@@ -133,6 +144,16 @@ def pred_route(ops, out, check_groups=False):
             targets = [x for x in m.group(1).split(",") if x]
             drop, nso = m.group(2) == "1", m.group(3) == "1"
             topic = f[1]
+            # what each peer will see on the wire: its own consecutive event ids, every message routed to it, in order
+            for t in targets:
+                if t in queued:
+                    queued[t].append(topic)
+            got = dict((x.split("=")[0], [y for y in x.split("=", 1)[1].split(",") if y]) for x in m.group(5).split(";") if x)
+            for p in peers:
+                want = [f"{i}:{tp}" for i, tp in enumerate(queued[p])]
+                if got.get(p) != want:
+                    return (f"`{op}`: the outgoing queue of peer {p} holds {got.get(p)}; it must hold the messages routed to it under "
+                            f"its own consecutive event ids {want}")
             if "A" in targets:
                 return f"`{op}` forwarded to the local node itself"
             if len(set(targets)) != len(targets):
@@ -189,13 +210,17 @@ def nontriv_route(ops, out):
 
 def gen_recv(rng):
     ops = ["new A", "join B", "join C", "hello B 1", "open B"]
-    i = 0
+    i, sid = 0, 1
     for _ in range(rng.randint(1, 6)):
         t = rng.choice(["t/1", "t/2", "$SYS/x"])
         ops.append(f"ev B {i} 1 msg {t} {rng.choice([0, 1, 1])} {rng.choice([0, 0, 1, 2])} {rng.choice([0, 1])}")
         i += 1
         if rng.random() < 0.3:
             ops.append("dump")
+        if rng.random() < 0.25:
+            # the sending node restarted (new session id) before anybody declared it failed: full resync, ids from 0
+            sid += 1; i = 0
+            ops += [f"hello B {sid}", "open B"]
     ops.append("dump")
     return ops
 
@@ -206,6 +231,7 @@ def pred_recv(ops, out):
     if len(out) != len(ops) or (out and out[0].startswith("CRASH")):
         return "implementation crashed or hung: " + (out[0] if out else "")
     store = {}
+    # (a new session id means a new session: its events, numbered from 0 again, are all new)
     for op, o in zip(ops, out):
         if o in ("panic", "hang", "bad-op"):
             return f"`{op}` -> {o}"
